@@ -29,6 +29,8 @@ SRC_LAYOUTS = [
     ["# t", "", MENTION, "N", ""],          # the ZID is mentioned by an EARLIER note
     ["# t", "", MENTION_END, "N", ""],
     ["# t", "", "- %sA sibling whose ZID extends the moved one" % Z1, "N", "- %sB another" % Z1, ""],
+    # characters str.splitlines() breaks at but the page format does not (FF, LS) in a note ABOVE the moved one
+    ["# t", "", "- %s al\x0cpha\u2028one" % Z2, "N", "- 240101#03 below", ""],
 ]
 DST_LAYOUTS = [
     None,                                   # missing: created from the template (or not)
